@@ -2,7 +2,9 @@
    harness/gen_ast.py on every run): _normalize_win_path (POSIX branch), and the bodies of to_fs_path and
    uri_scheme GIVEN what pygls.uris.urlparse returns (that function wraps urllib and is not translated:
    it is an oracle here, instantiated with the hand model's urlparse), compute under the PyMini semantics
-   exactly what Model/Uris.v computes. *)
+   exactly what Model/Uris.v computes.  Second part: from_fs_path, pygls.uris.urlunparse and uri_with, where
+   urllib.parse.quote and urllib.parse.urlunparse are the oracles (instantiated with Model/Uris.v's quote and
+   py_urlunparse) and calls between the translated functions run the translated bodies. *)
 From Coq Require Import ZArith NArith List Bool String Ascii Lia ZifyBool ZifyN ZifyNat.
 From Pygls Require Import Base.PyMini Base.PyMiniFacts Gen.AstUris Model.Uris.
 Import ListNotations.
@@ -247,4 +249,196 @@ Proof.
   - apply ast_normalize_win_path_equiv; assumption.
   - apply ast_to_fs_path_equiv.
   - apply ast_uri_scheme_equiv.
+Qed.
+
+(* ------------------------------------------------------------------------------------ *)
+(* from_fs_path and pygls.uris.urlunparse.  urllib.parse.quote and urllib.parse.urlunparse are not
+   translated: they are oracles (hypotheses), stated as what Model/Uris.v computes for them. *)
+
+Definition PARSE : option val := Some (VGlobal ["parse"]).
+
+(* parse.quote(s): the hand model's quote (UnicodeEncodeError is a ValueError) *)
+Definition spec_quote (call : callT) : Prop :=
+  forall s, call ["parse"; "quote"] PARSE [VStr s] [] = out_val VStr (Uris.quote s).
+
+(* parse.urlunparse(6-tuple of str): the hand model's py_urlunparse *)
+Definition spec_py_urlunparse (call : callT) : Prop :=
+  forall a b c d e g, call ["parse"; "urlunparse"] PARSE [tuple6_val (a, b, c, d, e, g)] [] =
+                      Ok (VStr (py_urlunparse a b c d e g)).
+
+Definition to_outcome (env : list (string * val)) (r : res val) : PyMini.outcome :=
+  match r with Ok v => OReturn v | PyMini.Raise k => ORaise k env | Stuck w => OStuck w end.
+
+Theorem urlunparse_ok call f sc nl pa p4 p5 p6 : spec_quote call -> spec_py_urlunparse call ->
+  run_fun call f f_urlunparse None [tuple6_val (sc, nl, pa, p4, p5, p6)] [] =
+  out_val VStr (Uris.urlunparse sc nl pa p4 p5 p6).
+Proof.
+  intros Hq Hu. unfold spec_quote, PARSE in Hq. unfold spec_py_urlunparse, PARSE, tuple6_val in Hu.
+  unfold run_fun, f_urlunparse, Uris.urlunparse, Uris.bind, tuple6_val. pybind.
+  pystep.
+  (* the rest, once quoted_path is known *)
+  assert (forall env qp, get "$1" env = Some (VStr sc) -> get "$2" env = Some (VStr nl) ->
+            get "$4" env = Some (VStr p4) -> get "$5" env = Some (VStr p5) -> get "$6" env = Some (VStr p6) ->
+            get "$7" env = Some (VStr qp) ->
+            exec_block call f env
+                    [SReturn (Some (ECall (EAttr (EGlobal "parse") "urlunparse")
+                       [(ETuple [(ECall (EAttr (EGlobal "parse") "quote") [(EName "$1")] []);
+                                 (ECall (EAttr (EGlobal "parse") "quote") [(EName "$2")] []);
+                                 (EName "$7");
+                                 (ECall (EAttr (EGlobal "parse") "quote") [(EName "$4")] []);
+                                 (ECall (EAttr (EGlobal "parse") "quote") [(EName "$5")] []);
+                                 (ECall (EAttr (EGlobal "parse") "quote") [(EName "$6")] [])])] []))] =
+            to_outcome env (out_val VStr
+              match Uris.quote sc with Uris.Raise e => Uris.Raise e | Ret qs =>
+              match Uris.quote nl with Uris.Raise e => Uris.Raise e | Ret qn =>
+              match Uris.quote p4 with Uris.Raise e => Uris.Raise e | Ret q4 =>
+              match Uris.quote p5 with Uris.Raise e => Uris.Raise e | Ret q5 =>
+              match Uris.quote p6 with Uris.Raise e => Uris.Raise e | Ret q6 =>
+              Ret (py_urlunparse qs qn qp q4 q5 q6) end end end end end)) as Htail.
+  { intros env qp G1 G2 G4 G5 G6 G7.
+    pystep_env. rewrite (Hq sc). destruct (Uris.quote sc) as [qs|e]; cbn [out_val]; [|destruct e; reflexivity].
+    use_env; pyexpr. rewrite (Hq nl). destruct (Uris.quote nl) as [qn|e]; cbn [out_val]; [|destruct e; reflexivity].
+    use_env; pyexpr. rewrite (Hq p4). destruct (Uris.quote p4) as [q4|e]; cbn [out_val]; [|destruct e; reflexivity].
+    use_env; pyexpr. rewrite (Hq p5). destruct (Uris.quote p5) as [q5|e]; cbn [out_val]; [|destruct e; reflexivity].
+    use_env; pyexpr. rewrite (Hq p6). destruct (Uris.quote p6) as [q6|e]; cbn [out_val]; [|destruct e; reflexivity].
+    rewrite Hu. reflexivity. }
+  pystep. rewrite re_drive_is_drive_match.
+  destruct (drive_match pa) eqn:Ed; pyexpr.
+  - destruct pa as [|a [|b [|c r]]]; try discriminate Ed.
+    change (clamp_idx (len (a :: b :: c :: r)) 3) with 3%N.
+    replace (take 3 (a :: b :: c :: r)) with [a; b; c] by (destruct r; reflexivity).
+    replace (drop 3 (a :: b :: c :: r)) with r by (destruct r; reflexivity). cbn [tl].
+    rewrite (Hq r). destruct (Uris.quote r) as [q|e]; cbn [out_val]; [|destruct e; reflexivity].
+    pyexpr. cbv beta iota. cbn [app].
+    subst rest. erewrite (Htail _ (a :: b :: c :: q)) by reflexivity.
+    match goal with |- context[to_outcome _ ?r] => destruct r; reflexivity end.
+  - rewrite (Hq pa). destruct (Uris.quote pa) as [q|e]; cbn [out_val]; [|destruct e; reflexivity].
+    cbv beta iota.
+    subst rest. erewrite (Htail _ q) by reflexivity.
+    match goal with |- context[to_outcome _ ?r] => destruct r; reflexivity end.
+Qed.
+
+(* from_fs_path, given its two callees: the translated _normalize_win_path and pygls.uris.urlunparse *)
+Definition spec_normalize (call : callT) (path : list N) : Prop :=
+  call ["_normalize_win_path"] None [VStr path] [] = Ok (pair_val (normalize_win_path path)).
+Definition spec_urlunparse (call : callT) : Prop :=
+  forall a b c d e g, call ["urlunparse"] None [tuple6_val (a, b, c, d, e, g)] [] =
+                      out_val VStr (Uris.urlunparse a b c d e g).
+
+Theorem from_fs_path_ok call f path : spec_normalize call path -> spec_urlunparse call ->
+  run_fun call f f_from_fs_path None [VStr path] [] = out_val opt_str_val (Uris.from_fs_path (Some path)).
+Proof.
+  intros Hn Hu. unfold spec_normalize in Hn. unfold spec_urlunparse, tuple6_val in Hu.
+  unfold run_fun, f_from_fs_path, Uris.from_fs_path, Uris.bind. pybind.
+  pysimp. rewrite Hn. destruct (normalize_win_path path) as [p' nl]. unfold pair_val. cbn [fst snd]. pysimp.
+  rewrite Hu. change [102; 105; 108; 101]%N with s_file.
+  destruct (Uris.urlunparse s_file nl p' [] [] []) as [u|e]; cbn [out_val opt_str_val]; pysimp.
+  - reflexivity.
+  - destruct e; reflexivity.
+Qed.
+
+(* The oracles made concrete: urllib.parse.quote / urllib.parse.urlunparse (and pygls.uris.urlparse) answer
+   as the hand model says, nothing else is callable ... *)
+Definition uris_oracle : callT := fun q recv args kw =>
+  match q, args with
+  | ["parse"; "quote"]%string, [VStr s] => out_val VStr (Uris.quote s)
+  | ["parse"; "urlunparse"]%string, [VTuple [VStr a; VStr b; VStr c; VStr d; VStr e; VStr g]] =>
+    Ok (VStr (py_urlunparse a b c d e g))
+  | _, _ => urlparse_oracle q recv args kw
+  end.
+
+(* ... and calls of the two translated functions from_fs_path uses run their translated bodies *)
+Definition uris_call (f : nat) : callT := fun q recv args kw =>
+  match q with
+  | ["_normalize_win_path"]%string => run_fun uris_oracle f f_normalize_win_path recv args kw
+  | ["urlunparse"]%string => run_fun uris_oracle f f_urlunparse recv args kw
+  | _ => uris_oracle q recv args kw
+  end.
+
+Theorem ast_urlunparse_equiv f sc nl pa p4 p5 p6 :
+  run_fun uris_oracle f f_urlunparse None [tuple6_val (sc, nl, pa, p4, p5, p6)] [] =
+  out_val VStr (Uris.urlunparse sc nl pa p4 p5 p6).
+Proof. apply urlunparse_ok; intro; intros; reflexivity. Qed.
+
+Theorem ast_from_fs_path_equiv f path :
+  run_fun (uris_call f) f f_from_fs_path None [VStr path] [] =
+  out_val opt_str_val (Uris.from_fs_path (Some path)).
+Proof.
+  apply from_fs_path_ok.
+  - unfold spec_normalize, uris_call. apply normalize_ok.
+  - intros a b c d e g. unfold uris_call. apply ast_urlunparse_equiv.
+Qed.
+
+(* non-vacuity: a space is quoted, a UNC authority is split off, a drive letter keeps its colon, and a lone
+   surrogate makes quote raise (UnicodeEncodeError, a ValueError the handler does not catch) *)
+Example ast_from_fs_path_example :
+  run_fun (uris_call 0) 0 f_from_fs_path None [VStr (lit "/a b/c")] [] = Ok (VStr (lit "file:///a%20b/c")) /\
+  run_fun (uris_call 0) 0 f_from_fs_path None [VStr (lit "//host/share")] [] = Ok (VStr (lit "file://host/share")) /\
+  run_fun (uris_call 0) 0 f_from_fs_path None [VStr (lit "C:/x y")] [] = Ok (VStr (lit "file:///c:/x%20y")) /\
+  run_fun (uris_call 0) 0 f_from_fs_path None [VStr [47; 55296]%N] [] = PyMini.Raise PyMini.ValueError.
+Proof. repeat split; vm_compute; reflexivity. Qed.
+
+(* ------------------------------------------------------------------------------------ *)
+(* uri_with, given pygls.uris.urlparse (oracle), _normalize_win_path and pygls.uris.urlunparse *)
+
+Lemma or_str_val o b :
+  (if truthy (opt_str_val o) then Ok (opt_str_val o) else Ok (VStr b)) = Ok (VStr (or_str o b)).
+Proof. destruct o as [[|c r]|]; reflexivity. Qed.
+
+Theorem uri_with_ok call f uri sc nl pa p4 p5 p6 :
+  spec_urlparse call uri -> (forall p, spec_normalize call p) -> spec_urlunparse call ->
+  run_fun call f f_uri_with None
+    [VStr uri; opt_str_val sc; opt_str_val nl; opt_str_val pa; opt_str_val p4; opt_str_val p5; opt_str_val p6] [] =
+  out_val VStr (Uris.uri_with uri sc nl pa p4 p5 p6).
+Proof.
+  intros Hp Hn Hu. unfold spec_urlparse in Hp. unfold spec_normalize in Hn. unfold spec_urlunparse, tuple6_val in Hu.
+  unfold run_fun, f_uri_with, Uris.uri_with, Uris.uri_with_gen, normalize_win_path_gen, Uris.bind. pybind.
+  pystep. rewrite Hp.
+  destruct (Uris.urlparse uri) as [[[[[[o1 o2] o3] o4] o5] o6]|e]; cbn [out_val tuple6_val]; pysimp.
+  2: { destruct e; reflexivity. }
+  destruct pa as [p|]; cbn [opt_str_val].
+  2: { pystep. reflexivity. }
+  pystep. pystep. rewrite Hn. destruct (normalize_win_path p) as [p' x]. unfold pair_val. cbn [fst snd]. pysimp.
+  pystep. rewrite !or_str_val. pysimp.
+  destruct p' as [|c0 r0]; pysimp; cbn [nonempty]; rewrite Hu;
+    match goal with |- context[out_val VStr ?r] => destruct r as [?|[]]; reflexivity end.
+Qed.
+
+Theorem ast_uri_with_equiv f uri sc nl pa p4 p5 p6 :
+  run_fun (uris_call f) f f_uri_with None
+    [VStr uri; opt_str_val sc; opt_str_val nl; opt_str_val pa; opt_str_val p4; opt_str_val p5; opt_str_val p6] [] =
+  out_val VStr (Uris.uri_with uri sc nl pa p4 p5 p6).
+Proof.
+  apply uri_with_ok.
+  - reflexivity.
+  - intros p. unfold spec_normalize, uris_call. apply normalize_ok.
+  - intros a b c d e g. unfold uris_call. apply ast_urlunparse_equiv.
+Qed.
+
+(* non-vacuity: the new path is normalised and quoted, its UNC authority is dropped (finding F29), the old
+   parts are kept, the call by keyword binds the same parameters, and a missing path raises Exception *)
+Example ast_uri_with_example :
+  run_fun (uris_call 0) 0 f_uri_with None
+    [VStr (lit "file://h/a?q#f"); VNone; VNone; VStr (lit "//host/x y"); VNone; VNone; VNone] [] =
+    Ok (VStr (lit "file://h/x%20y?q#f")) /\
+  run_fun (uris_call 0) 0 f_uri_with None [VStr (lit "file:///a")]
+    [("path", VStr (lit "b")); ("scheme", VStr (lit "http"))] = Ok (VStr (lit "http:///b")) /\
+  run_fun (uris_call 0) 0 f_uri_with None [VStr (lit "file:///a")] [] = PyMini.Raise ExcOther.
+Proof. repeat split; vm_compute; reflexivity. Qed.
+
+(* the three in one statement (one `Print Assumptions` per run) *)
+Definition ast_uris2_equiv_statement : Prop :=
+  (forall f path, run_fun (uris_call f) f f_from_fs_path None [VStr path] [] =
+                  out_val opt_str_val (Uris.from_fs_path (Some path))) /\
+  (forall f sc nl pa p4 p5 p6,
+     run_fun uris_oracle f f_urlunparse None [tuple6_val (sc, nl, pa, p4, p5, p6)] [] =
+     out_val VStr (Uris.urlunparse sc nl pa p4 p5 p6)) /\
+  (forall f uri sc nl pa p4 p5 p6,
+     run_fun (uris_call f) f f_uri_with None
+       [VStr uri; opt_str_val sc; opt_str_val nl; opt_str_val pa; opt_str_val p4; opt_str_val p5; opt_str_val p6] [] =
+     out_val VStr (Uris.uri_with uri sc nl pa p4 p5 p6)).
+
+Theorem ast_uris2_equiv : ast_uris2_equiv_statement.
+Proof.
+  repeat split; intros; [apply ast_from_fs_path_equiv | apply ast_urlunparse_equiv | apply ast_uri_with_equiv].
 Qed.
